@@ -96,7 +96,27 @@ func buildWorker(pkg string) (string, error) {
 	}
 	name := strings.ReplaceAll(strings.Trim(pkg, "./"), "/", "_")
 	out := filepath.Join(buildDir, name+".test")
-	cmd := exec.Command(goBin(), "test", "-c", "-tags", "verif", "-vet=off", "-o", out, pkg)
+	args := []string{"test", "-c", "-tags", "verif", "-vet=off", "-o", out}
+	if alt := os.Getenv("VCHECK_REPO"); alt != "" && alt != "/repo" {
+		// Evaluate another checkout of pion/dtls (e.g. a scratch worktree holding a seeded change) without
+		// touching /repo: same harness, alternative module file whose replace directive points there.
+		// Registered checks never set this; evidence must come from /repo.
+		mod, err := os.ReadFile(filepath.Join(hDir, "go.mod"))
+		if err != nil {
+			return "", err
+		}
+		altMod := filepath.Join(buildDir, "alt.go.mod")
+		if err := os.WriteFile(altMod, []byte(strings.ReplaceAll(string(mod), "=> /repo", "=> "+alt)), 0o644); err != nil {
+			return "", err
+		}
+		if b, err := os.ReadFile(filepath.Join(alt, "go.sum")); err == nil {
+			_ = os.WriteFile(filepath.Join(buildDir, "alt.go.sum"), b, 0o644)
+		}
+		out = filepath.Join(buildDir, name+".alt.test")
+		args = append(args[:len(args)-1], out, "-modfile="+altMod)
+	}
+	args = append(args, pkg)
+	cmd := exec.Command(goBin(), args...)
 	cmd.Dir = hDir
 	cmd.Env = goEnv()
 	var buf bytes.Buffer
